@@ -428,7 +428,9 @@ pub open spec fn chunk_facts(sq: Seq<u8>, cs: int, e: int, full: Option<Seq<u8>>
 //@@ body
     proof { axiom_slice_len_isize(s); }
 //@@ closure 0
- -> (b: bool) requires *i < 16, ensures b == (POWER_2[*i as int] >= decomp_len),
+ -> (b: bool) requires *i < 16, ensures
+    //# C18.bit_count_predicate
+    b == (POWER_2[*i as int] >= decomp_len),
 //@@ before /let mut res = /
     proof {
         lemma_p2_vals();
